@@ -320,7 +320,7 @@ impl Driver for C11 {
         }
     }
     fn rule(&self) -> String {
-        "(exhaustive at every run, unit 0) every (parent operator, child operator, side) triple of the 9 binary operators with a parenthesised child, in keyword and symbol spelling (324 programs), plus 21 programs for unary operators over parenthesised children and negative constants, implicit products and blocks; (random) expression texts of the C09 corpus embedded as objectives, and whole model texts from G-text (random layout, aliases, implicit multiplication, where-constants, named constraints, comments, compound names), and data-driven programs from G-data (arrays incl. mixed integer/decimal and nested ones, graphs, ranges, enumerate/zip/set functions, scoped blocks, for-quantified constraints and declarations). For every text T that parses: format(T) parses and formats to itself; type_check and parse_and_transform succeed or fail alike; the two compiled models have identical declarations, constraint names and relations, and every expression pair evaluates identically (exact evaluator) at 24 assignments over {0..3}; the linear models are compared row by row where both exist. non-trivial = text whose formatted version compiled to a model of equal meaning".into()
+        "(exhaustive at every run, unit 0) every (parent operator, child operator, side) triple of the 9 binary operators with a parenthesised child, in keyword and symbol spelling (324 programs), plus 21 programs for unary operators over parenthesised children and negative constants, implicit products and blocks; (random) expression texts of the C09 corpus embedded as objectives, and whole model texts from G-text (random layout, aliases, implicit multiplication, where-constants, named constraints, comments, compound names), and data-driven programs from G-data (arrays incl. mixed integer/decimal and nested ones, graphs, ranges, enumerate/zip/set functions, scoped blocks, for-quantified constraints and declarations). For every text T that parses: format(T) parses and formats to itself; type_check and parse_and_transform succeed or fail alike; the two compiled models have identical declarations, constraint names and relations, and every expression pair evaluates identically (exact evaluator) at 24 assignments over {0..3}; the linear models are compared row by row where both exist. non-trivial = text whose formatted version compiled to a model of equal meaning Fixed templates per unit: names that begin with underscores, quoted-string indexes beside a constant of that name, string literals with every escape of the grammar, non-ASCII characters, raw line breaks and trailing backslashes (alone and in arrays), decimals whose float debug form has an exponent, iteration names with a leading underscore.".into()
     }
     fn thresholds(&self, tier: Tier) -> Thresholds {
         let s = tier.pick(1, 10);
